@@ -287,8 +287,34 @@ def r3_build(run, F):
            "build_header asserts errors.is_empty(): an open zone only exists after a parse error")
 
 
+def r4_node_ids_fresh(run, F):
+    """build_header_nodes moves a public declaration by subtracting the number of skipped nodes from every node id stored in it.
+    That is only right if every id stored in a declaration's nodes names a node of the same declaration.  The parser gets its
+    ids from ParseBuffer: each method that hands out a NodeId (or a value that contains one) returns an id created by that very
+    call or handed in by the caller -- never one remembered in the buffer from an earlier declaration (a shared "empty list"
+    terminator made later public lists point back across private zones)."""
+    from rules import origins, visit
+    n = 0
+    for p, b in sorted(F.lib.bodies.items()):
+        if "hir" not in b or "{closure" in p or "::ParseBuffer::" not in p or not p.startswith("delta::parser::parse_tree::"):
+            continue
+        leaves = [l for l in visit.result_leaves(b["hir"]) if l.get("t") is not None and ("NodeId" in F.lib.types[l["t"]] or "UnfinishedImpl" in F.lib.types[l["t"]] or "ActiveList" in F.lib.types[l["t"]])]
+        if not leaves:
+            continue
+        n += 1
+        o = set()
+        for l in leaves:
+            o |= origins.origins(b["hir"], l, b.get("params", ()))
+        remembered = sorted(k[1] for k in o if k[0] == "field")
+        run.ob("R4-NODE-IDS-FRESH", p.split("::")[-1], not remembered, F.where(b),
+               "%s hands out a node id read from the buffer's own state (%s): ids must be created by the call or passed in, or the header "
+               "builder's rebasing (`id - num_skipped_nodes`) moves them to the wrong node" % (p.split("::")[-1], remembered))
+    run.ob("R4-NODE-IDS-FRESH", "scan", n >= 3, "src/delta/parser/parse_tree.rs", "%d id-returning methods of ParseBuffer examined" % n)
+
+
 def check(run):
     F = run.facts("A")
     r1_convert(run, F)
     r2_zones(run, F)
     r3_build(run, F)
+    r4_node_ids_fresh(run, F)
